@@ -3,6 +3,7 @@ from mireval import Evaluator, Unsupported, fmt_term, mk_int, int_bits
 from models import Models
 from facts import loc
 from p_msgmap import norm, norm_cons
+from common import at_log_levels
 import a7
 from a4 import PanicInventory, rel_lt
 
@@ -55,6 +56,7 @@ def canon_eq(term, spec):
 
 
 # =========================================================================================
+@at_log_levels("flipdot_core")
 def run_c07(chk, prog):
     chk.notes.append("A3/A7/A2: Page::new's byte sequence is extracted symbolically and compared with [id, 0x10, 0, 0] ++ zeros up to data_bytes ++ 0xFF up to total_bytes, "
                      "with the three size formulas and the pixel index formula compared in canonical polynomial form with 4 + w*ceil(h/8), 16*ceil(./16), 4 + x*ceil(h/8) + floor(y/8), y mod 8; "
@@ -211,6 +213,7 @@ def collect_index(t, out):
 
 
 # =========================================================================================
+@at_log_levels("flipdot_core")
 def run_c06(chk, prog):
     chk.notes.append("A2 guard orderings, A7 canon, A3 bit masks, A5 who-writes, A4 in-bounds panic freedom on Page::{get_pixel,set_pixel,set_all_pixels}: every returning path admits exactly "
                      "x < width and y < height and every other path ends in the bounds panic; get reads (b & 1<<(y%8)) == mask at the layout index; set performs exactly one store "
@@ -318,6 +321,16 @@ def run_c06(chk, prog):
         chk.ob("C06.O4", "the fill covers exactly [4, 4 + width*ceil(height/8)) of self.bytes", okr and lo_ok and hi_ok, key="page:setall:range", where=where,
                detail="range %s .. %s" % (fmt_term(sl[2][1]) if okr else "?", got))
         val = known_bool(p, ("sym", "value", "bool"))
+        if val is None and v[0] != "int":
+            # the fill value is computed from `value` without a branch (`u8::from(value) * 0xFF`, `0u8.wrapping_sub(value as u8)`):
+            # its two values are read off the expression's truth table
+            try:
+                vs = norm(("sym", "value", "bool"))
+                seen_vals[True] = mk_int(bit_eval(v, {vs: 1}) & 0xFF, "u8")
+                seen_vals[False] = mk_int(bit_eval(v, {vs: 0}) & 0xFF, "u8")
+                continue
+            except NotBitExpr:
+                pass
         seen_vals[val] = v
     chk.ob("C06.O4", "set_all_pixels(true) fills 0xFF and set_all_pixels(false) fills 0x00", seen_vals.get(True) == mk_int(0xFF, "u8") and seen_vals.get(False) == mk_int(0, "u8"),
            key="page:setall:values", where=where, detail=str({k: fmt_term(v) for k, v in seen_vals.items()}))
@@ -350,7 +363,11 @@ def run_c06(chk, prog):
                detail=None if ok else o.failed[0])
     chk.floor("C06.O6", "panic-capable sites in the page functions", len(inv.obs), 4)
     chk.note_analysed("functions", sorted(inv.functions))
-    chk.assumptions.append("Page invariant len(bytes) == total_bytes(width,height): every Page is built by Page::new / Page::from_bytes (C07.O1/O3 + C06.O5) and no unsafe code exists")
+    # the in-bounds panic freedom above rests on the Page invariant len(bytes) == 16*ceil((4 + width*ceil(height/8))/16): the constructors'
+    # rules (C07.O1 / C07.O3) are a leg of this property, not an assumption
+    n = chk.include("C06.layout", run_c07, prog, keep=lambda r: r.startswith("C07.O1") or r.startswith("C07.O3"))
+    chk.floor("C06.layout", "constructor obligations establishing the Page length invariant (C07.O1/O3)", n, 6)
+    chk.assumptions.append("Page invariant len(bytes) == total_bytes(width,height): every Page is built by Page::new / Page::from_bytes (decided here as C06.layout(C07.O1/O3) + C06.O5) and no unsafe code exists")
 
 
 def known_bool(p, sym):
@@ -609,6 +626,11 @@ def who_writes(chk, prog, cx):
     for f, s in ctor_sites:
         imp = f.get("impl") or {}
         ok = imp.get("self_adt") == PAGE and ((f.get("item") in ("new", "from_bytes") and "trait" not in imp) or (imp.get("automatically_derived") and f.get("item") == "clone"))
+        if not ok and "::{closure#" in f["path"]:
+            # a closure written inside Page::new / Page::from_bytes (`cond.then(|| Page { .. })`) is part of that constructor
+            outer = prog.fns.get(f["path"].split("::{closure#")[0])
+            oimp = (outer or {}).get("impl") or {}
+            ok = outer is not None and oimp.get("self_adt") == PAGE and "trait" not in oimp and outer.get("item") in ("new", "from_bytes")
         chk.ob("C06.O5", "Page values are constructed only by Page::new / Page::from_bytes / derived Clone (%s)" % f["name"], ok, key="page:ctor:%s" % f["name"], where=loc(s.get("span")))
     chk.floor("C06.O5", "Page construction sites", len(ctor_sites), 2)
     # field visibility
